@@ -757,7 +757,7 @@ func gen(t *rapid.T) Case {
 		c.Sess = append(c.Sess, genSess(t, uint64(0x60+i)))
 	}
 	// scripted cores make the interesting shapes frequent; free-form events follow
-	scen := rapid.SampledFrom([]string{"free", "free", "overflow", "twoforw", "reuse", "reuseorphan", "lateseid0", "reassocreuse", "recreate", "recreatelate", "createagain", "dropshared"}).Draw(t, "scenario")
+	scen := rapid.SampledFrom([]string{"free", "free", "overflow", "twoforw", "reuse", "reuseorphan", "lateseid0", "reassocreuse", "recreate", "recreatelate", "createagain", "refill", "dropshared"}).Draw(t, "scenario")
 	if scen != "free" {
 		c.Sess[0].FARs[0].Action = rapid.SampledFrom([]uint16{BUFF, BUFF | NOCP}).Draw(t, "a0")
 		c.Sess[0].PDRs[0].FAR = 1
@@ -798,6 +798,11 @@ func gen(t *rapid.T) Case {
 	case "createagain":
 		// packets buffered for PDR 1, a Create PDR 1 that the data plane refuses, more packets, release: all of them, in order
 		c.Evs = append(c.Evs, small(), Ev{Kind: "mkpdr", Sess: 0, PDR: 1, FAR: 1}, small(), forw)
+	case "refill":
+		// buffer, release, buffer again - many this time: a queue that has been emptied holds as much as a new one
+		// (the capacity is not given: it shows itself at the first overflow and must stay what it was)
+		c.Evs = append(c.Evs, Ev{Kind: "burst", Sess: 0, Target: "live", PDR: 1, N: rapid.SampledFrom([]int{513, 520}).Draw(t, "refill_first")}, forw, Ev{Kind: "updfar", Sess: 0, FAR: 1, Action: BUFF},
+			Ev{Kind: "burst", Sess: 0, Target: "live", PDR: 1, N: rapid.SampledFrom([]int{300, 513, 600}).Draw(t, "refill_n")}, forw)
 	case "twoforw":
 		c.Evs = append(c.Evs, small(), forw, Ev{Kind: "updfar", Sess: 0, FAR: 1, Action: BUFF}, small(), forw)
 	case "reuseorphan":
